@@ -494,7 +494,7 @@ impl Property for C04 {
         Meta {
             level: "fault_enumeration",
             rule: "each run is a producer module (with the spots the property names planted: OpSpecConstantOp naming any opcode, OpConstant of undeclared type, int/float declarations of every width) through 0-4 seeded storage faults, or raw random bytes / random words behind a valid header; the buffer sits against guard pages and goes through parse_bytes, parse_words, load_bytes and, when accepted, assemble / module, function and per-instruction disassemble; half the runs add a random Decoder request sequence with limits from 0 to usize::MAX; 1 run in 30 enumerates every truncation offset; invariant = no panic (overflow checks and debug assertions on), no signal, callbacks <= words; abstract trace = (fault kinds, accepted?, length residue); non-trivial = a fault fired, the module was accepted, or raw input",
-            lanes: "consumer re-entering the parser from a callback; one Loader reused across a cut parse and a suffix parse; assemble_into on a pre-filled vector; ext-inst hot spot with boundary numbers, near-miss names and duplicate imports; constants whose type is declared (again) later; words(n) with n = 2^62, usize::MAX; rare giant features; thorough: self-contained Miri lane; opcode faults 0 / last+1 / +-1; zero padding behind the module; linkage / merge hot spots; dense ids across 2^k boundaries",
+            lanes: "consumer re-entering the parser from a callback; one Loader reused across a cut parse and a suffix parse; assemble_into on a pre-filled vector; ext-inst hot spot with boundary numbers, near-miss names and duplicate imports; constants whose type is declared (again) later; words(n) with n = 2^62, usize::MAX; rare giant features; thorough: self-contained Miri lane; opcode faults 0 / last+1 / +-1; zero padding behind the module; linkage / merge hot spots; dense ids across 2^k boundaries; constants typed through value ids; an id defined twice (typed by itself); literal specials (infinities, NaNs, half-float edges); SpecConstantOp naming special-kind opcodes and the edges of the opcode space; sparse-id lane",
             triple_measure: "(first fault kind, accepted?, buffer length residue mod 4)",
             item_measure: "n/a",
             assumptions: &[
